@@ -47,7 +47,7 @@ THEOREMS = [
     "C17.AsIs.tlwt_boundary_counter",
     "C17.AsIs.tlwt_no_age_rule",
 ]
-RULE = ("20% of the non-mapper cases subscribe the SAME observable instance a second time (overlapping or later) and compare with a fresh single subscription; timelines of 0..7 elements + terminal (completed/error/none, 12% non-conforming or with pre-subscription messages) placed before/at/after "
+RULE = ("30% of the cases are RUN in fractional seconds (1/10 or 1/100 s per unit on the float clock of TestScheduler, float or timedelta durations) while generated, modelled and judged in exact integer units: elements exactly at a boundary / gaps exactly equal to a due time stay exact; 20% of the non-mapper cases subscribe the SAME observable instance a second time (overlapping or later) and compare with a fresh single subscription; timelines of 0..7 elements + terminal (completed/error/none, 12% non-conforming or with pre-subscription messages) placed before/at/after "
         "every boundary (subscription+duration, absolute end/start times incl. past ones, completion-duration, last element+due time), bursts, "
         "gaps d-1/d/d+1, simultaneous arrivals; hot and cold sources; non-trivial = output differs from the source as seen or a timer decided the outcome")
 ASSUMPTIONS = ["virtual time in integer ticks on TestScheduler; hot source messages are scheduled before the operator's timers (source wins ties); "
@@ -134,6 +134,7 @@ def cases(rng, tier):
                 if t2 is not None:
                     c["sub2"] = t2          # the same observable instance subscribed again: state must be per subscription
             c["msgs"] = T.to_cold(msgs) if src == "cold" else msgs
+            T.gen_scale(rng, c)          # fractional seconds / timedelta durations
             yield c
 
 
@@ -146,6 +147,7 @@ def impl(case):
     from reactivex import operators as ops
 
     op = case["op"]
+    case = T.realize(case)          # the case as it is run (seconds); identical unless "scale" is set
 
     def when(c):
         return T.utc(c["at"]) if c["abs"] else c["at"]
@@ -303,6 +305,7 @@ def nontrivial(case, io):
 def bucket(case, io):
     yield from T.shape(case, io)
     yield f"{case['op']}:second-subscription={'sub2' in case}"
+    yield f"{case['op']}:scale={case.get('scale', 1)}:td={bool(case.get('td'))}"
     if case["op"] in ("take_with_time", "skip_with_time", "take_until_with_time", "skip_until_with_time"):
         b = boundary(case)
         ts = [m[0] for m in T.seen(case)]
